@@ -577,6 +577,9 @@ def gen_plan(seed: int, cls: str) -> dict:
     if ro.random() < 0.3:
         pos = ro.randrange(len(ops) + 1)
         ops[pos:pos] = _error_content_scenario(ro, sym)
+    if ro.random() < 0.25:
+        pos = ro.randrange(len(ops) + 1)
+        ops[pos:pos] = _shared_condition_scenario(ro, sym)
     if ro.random() < 0.3 and ndict < 5:
         extra = _handler_identity_scenario(ro, sym, ndict, knobs)
         ndict += 2
@@ -684,6 +687,33 @@ def _near_miss_scenario(ro, sym, roots, nroot, pick_custom):
     except HarnessError:
         pass
     return out, nroot
+
+
+def _shared_condition_scenario(ro, sym):
+    """
+    Condition objects are shared: the application defines `Percent = val_range(0, 10)` once and uses it in many types,
+    alone and together with other conditions (`Annotated[int, Percent, Positive]`).  Using it in a combination must not
+    change what it means on its own - neither for converters built before nor for those built after.
+    """
+    num2 = ro.choice(['Positive', 'NonNegative', 'Negative'])
+    plain_first = ro.random() < 0.5
+    kind = ro.choice(['num', 'num', 'len'])
+    if kind == 'num':
+        alone, combo = ['ann', ['s', 'int'], 'range0_10'], ['ann', ['s', 'int'], 'range0_10', num2]
+        combo_ok, probes = {'Positive': 5, 'NonNegative': 3, 'Negative': -1}[num2], [0, 10, 5, -1, 11]
+    else:
+        alone, combo = ['ann', ['list', ['s', 'int']], 'len1_3'], ['ann', ['list', ['s', 'int']], 'len1_3', 'Empty']
+        combo_ok, probes = [1], [[1], [1, 2, 3], [], [1, 2, 3, 4]]
+    out = []
+    wrap = ro.choice([None, 'list', 'opt'])
+    w = (lambda a: a) if wrap is None else (lambda a: [wrap, a])
+    wd = (lambda d: d) if wrap != 'list' else (lambda d: [d])
+    if plain_first:
+        out.append({'op': 'inline', 't': w(alone), 'data': tg.enc(wd(probes[2] if kind == 'num' else probes[0])), 'custom': None})
+    out.append({'op': 'inline', 't': w(combo), 'data': tg.enc(wd(combo_ok)), 'custom': None})
+    for d in ro.sample(probes, ro.choice([2, 3])):
+        out.append({'op': 'inline', 't': w(alone), 'data': tg.enc(wd(d)), 'custom': None, 'pristine': True})
+    return out
 
 
 def _error_content_scenario(ro, sym):
